@@ -328,5 +328,8 @@ def _block(vm, s, g, what):
     if vm.use_solver and not vm.feasible(gg):
         return
     vm.blocked.append((gg, what, s.where()))
+    from fractions import Fraction
+    from .vm import _fork_ids
+    s.orig = s.orig + ((s.guard, Fraction(1, 2), next(_fork_ids)),)  # the blocked share never comes back
     s.guard = AND(s.guard, NOT(g))
     vm.lost = True
